@@ -82,7 +82,9 @@ def run(ctx):
                         parts.append(s["lhs"]["l"])
         if parts:
             for st in parts:
-                check_linear(ctx, "R10.7", b, st, lambda cs, i: cs is None or cs.name in CONSUMERS + ("into_iter", "extend"), what="value-part")
+                # (handing the part to a private helper of the crate that iterates it is consuming it too)
+                check_linear(ctx, "R10.7", b, st, lambda cs, i: cs is None or cs.name in CONSUMERS + ("into_iter", "extend") or
+                             any(sb.crate == AG and any(x.name in ("into_iter", "next", "for_each") for x in sb.calls()) for sb in local_callee_bodies(F, cs)), what="value-part")
             continue
         check_linear(ctx, "R10.7", b, 2, is_consumer, what="value")
     # ------------------------------------------------------------------ R10.9 what each value strategy does with the value (table confirmed by reading value.rs / histogram.rs)
